@@ -149,6 +149,7 @@ Inductive oev : Type :=
 | ODet (t : Z) (res : bool)
 | OPeer (i : Z) (recv : bytes) (kind t : Z)
 | OMem (delta : Z)
+| OWExit (t : Z)
 | OPanic (t : Z)
 | OInv.
 
@@ -164,7 +165,7 @@ Definition dec_oev (s : sexp) : option oev :=
     | [I t; B m] => if is_sym n "dlv" then Some (ODlv t m) else None
     | [I t] =>
       if is_sym n "ret" then Some (ORet t) else if is_sym n "wg" then Some (OWg t)
-      else if is_sym n "mem" then Some (OMem t) else if is_sym n "panic" then Some (OPanic t) else None
+      else if is_sym n "mem" then Some (OMem t) else if is_sym n "wexit" then Some (OWExit t) else if is_sym n "panic" then Some (OPanic t) else None
     | [I i; B r; I k; I t] => if is_sym n "peer" then Some (OPeer i r k t) else None
     | [S _] => if is_sym n "inv" then Some OInv else None
     | _ => None
@@ -184,6 +185,7 @@ Record scn : Type := mkScn {
   s_subconn : Z;
   s_cbsleep : Z;
   s_cbwrite : bytes;
+  s_hookdelay : Z;
   s_conns : list cscript;
   s_orcb : table;
   s_orca : table;
@@ -195,7 +197,7 @@ Record scn : Type := mkScn {
 
 Definition dec_scn (s : sexp) : option scn :=
   match s with
-  | L [S k; S _id; L [S _cfg; S entry; I usecfg; I noc; I rec; I lis; I can; I sens; I recvfrom; I subconn; I cbsleep; B cbwrite];
+  | L [S k; S _id; L [S _cfg; S entry; I usecfg; I noc; I rec; I lis; I can; I sens; I recvfrom; I subconn; I cbsleep; B cbwrite; I hookdelay];
        L conns; L (S _orc :: orc); L [S _subs; I substart; L subs]; L (S _rorc :: rorc); L (S _obs :: obs)] =>
     if is_sym k "scn" then
       let? cs := dec_list dec_cscript conns in
@@ -203,7 +205,7 @@ Definition dec_scn (s : sexp) : option scn :=
       let? sb := dec_list dec_submitter subs in
       let? ro := dec_list dec_pair rorc in
       let? ob := dec_list dec_oev obs in
-      Some (mkScn (is_sym entry "detector") (negb (usecfg =? 0)) noc rec lis can (negb (sens =? 0)) recvfrom subconn cbsleep cbwrite
+      Some (mkScn (is_sym entry "detector") (negb (usecfg =? 0)) noc rec lis can (negb (sens =? 0)) recvfrom subconn cbsleep cbwrite hookdelay
                   cs (fst o) (snd o) substart sb ro ob)
     else None
   | _ => None
@@ -290,6 +292,8 @@ Fixpoint obs_ret (o : list oev) : option Z :=
   match o with [] => None | ORet t :: _ => Some t | _ :: r => obs_ret r end.
 Fixpoint obs_wg (o : list oev) : option Z :=
   match o with [] => None | OWg t :: _ => Some t | _ :: r => obs_wg r end.
+Fixpoint obs_wexits (o : list oev) : list Z :=
+  match o with [] => [] | OWExit t :: r => t :: obs_wexits r | _ :: r => obs_wexits r end.
 Fixpoint obs_inv (o : list oev) : bool :=
   match o with [] => false | OInv :: _ => true | _ :: r => obs_inv r end.
 Fixpoint obs_panic (o : list oev) : bool :=
@@ -369,7 +373,7 @@ Definition compare_client (s : scn) (extra : Z -> option bytes) : option sexp :=
     Some (mism "timing" "events" [L (map times_of_grp mg)])
   else if negb (match model_ret tr, obs_ret o with Some a, Some b => close_to a b | _, _ => true end) then
     Some (mism "timing" "returned" [match model_ret tr with Some a => I a | None => I (-1) end])
-  else if negb (match obs_ret o, obs_wg o with Some a, Some b => b - a <=? tol | _, _ => true end) then
+  else if negb (match obs_ret o, obs_wg o with Some a, Some b => b - fold_left Z.max (obs_wexits o) a <=? tol | _, _ => true end) then
     Some (mism "timing" "wg" [])
   else None.
 
